@@ -14,7 +14,7 @@ for id in $IDS; do
   found=""
   for c in $prop $extra; do
     log=$(VERIF_EVIDENCE_DIR=/tmp/sweep-evidence ./check "$c" quick 2>&1); rc=$?
-    sig=$(printf "%s\n" "$log" | grep -m1 "violation detail" | sed 's/.*signature=\([^ ]*\) ::.*/\1/')
+    sig=$(printf "%s\n" "$log" | grep -m1 "violation detail" | sed 's/.*signature=\(.*\) :: .*/\1/' | cut -c1-160)
     grep -v "^$id	$c	" "$OUT" > "$OUT.tmp"; mv "$OUT.tmp" "$OUT"
     printf "%s\t%s\t%s\t%s\n" "$id" "$c" "$rc" "${sig:-none}" >> "$OUT"
     if [ "$rc" = "1" ]; then
